@@ -1,3 +1,4 @@
+import Treepath.Proofs.Drive
 import Treepath.Proofs.EvalLemmas
 import Treepath.Proofs.NodeLemmas
 /- C12 — searching from a Match continues the original path -/
@@ -27,6 +28,15 @@ theorem nested_root_transparent (m : MNode J) :
     (MNode.imag m).data = m.data ∧ (MNode.imag m).pathStr = m.pathStr ∧
     (MNode.imag m).pathMatchList = m.pathMatchList ∧ (MNode.imag m).parent = m.parent ∧
     (MNode.imag m).remParent = m.remParent := by simp
+
+/-- the nested traverser (search started from a Match `m`: `init_action` creates an imaginary
+match whose real parent is `m`) yields exactly the definition evaluated from `imag m` -/
+theorem nested_machine (steps : Array (Step J)) (m : MNode J) (hq : Quiet steps.toList) (hp : PredsClean steps)
+    (limit : Nat) (st' st'' : St J) (rs : List (MNode J)) (E evs : List (Ev J))
+    (hy : Yields J.view steps (.nested m) limit freshIter rs E st')
+    (hstop : next J.view steps (.nested m) limit st' = (st'', evs, .stop)) :
+    rs = eval steps.toList (.imag m) :=
+  exhausted_all steps (.nested m) hq hp limit st' st'' rs E evs hy hstop
 
 /-- a parent step at the start of `q` climbs above the Match the search started from -/
 theorem climb_above_source (m t : MNode J) (h : m.remParent = some t) :
